@@ -234,7 +234,7 @@ fn judge_cell(c: &Cell, o: &Out) -> Vec<(String, String, String)> {
 
 fn cells(tier: Tier) -> Vec<Cell> {
   let mut v = vec![];
-  let hwms: Vec<i32> = tier.pick(vec![1, 2, 8, 64], vec![1, 2, 8, 64, 1000]);
+  let hwms: Vec<i32> = tier.pick(vec![1, 2, 8, 64], vec![1, 2, 3, 8, 16, 64, 256, 1000]);
   for pair in [Pair::PushPull, Pair::DealerRouter, Pair::RouterDealer, Pair::DealerDealer] {
     for tr in [Tr::ZmtpPeerIdle, Tr::ZmtpStalled, Tr::Inproc] {
       if pair == Pair::DealerDealer && tr == Tr::Inproc {
@@ -284,7 +284,7 @@ fn run_rcell(c: RCell) -> world::WorldResult<(String, u64, Option<bool>)> {
     if c.connected {
       let p = stack::mk(&ctx, peer_ty, &[(o::LINGER, 0), (o::SNDTIMEO, 100)]).await;
       let l = stack::link_pair(&p, &s, 4096).await;
-      std::mem::forget(l);
+      mc_core::world::keep(l);
       settle_n(4).await;
       peer = Some(p);
     }
@@ -297,7 +297,7 @@ fn run_rcell(c: RCell) -> world::WorldResult<(String, u64, Option<bool>)> {
           tokio::time::sleep(Duration::from_millis(step)).await;
           let p = stack::mk(&ctx2, peer_ty, &[(o::LINGER, 0), (o::SNDTIMEO, 100)]).await;
           let l = stack::link_pair(&p, &s3, 4096).await;
-          std::mem::forget(l);
+          mc_core::world::keep(l);
           kept.push(p);
           if k % 3 == 2 {
             if let Some(old) = kept.first().cloned() {
@@ -351,7 +351,7 @@ pub fn run(tier: Tier) -> Report {
   let list = cells(tier);
   let mut sub = Sub::new("sndtimeo-hwm", "E3");
   sub.rule = "case = one world per (pair, transport, HWM, SNDTIMEO): send until a send is refused or stays pending for 1 h virtual, then the peer reads everything; non-trivial = all; oracle: refusal kind and virtual elapsed time match SNDTIMEO, -1 waits and completes once the peer reads, received == accepted in order, accepted count capped".into();
-  sub.bounds = json!({"cells": list.len(), "hwm": tier.pick(vec![1, 2, 8, 64], vec![1, 2, 8, 64, 1000]), "sndtimeo_ms": [0, 1, 50, 500, -1], "pairs": ["PUSH>PULL", "DEALER>ROUTER", "ROUTER>DEALER", "DEALER>DEALER"], "message_bytes": MSG_LEN});
+  sub.bounds = json!({"cells": list.len(), "hwm": tier.pick(vec![1, 2, 8, 64], vec![1, 2, 3, 8, 16, 64, 256, 1000]), "sndtimeo_ms": [0, 1, 50, 500, -1], "pairs": ["PUSH>PULL", "DEALER>ROUTER", "ROUTER>DEALER", "DEALER>DEALER"], "message_bytes": MSG_LEN});
   let results: std::sync::Mutex<Vec<(usize, usize)>> = std::sync::Mutex::new(vec![]);
   par::enumerate(&mut sub, list.len(), |i| {
     let c = list[i];
@@ -409,7 +409,7 @@ pub fn run(tier: Tier) -> Report {
   // ---- RCVTIMEO ----
   let mut rc = vec![];
   for ty in [SocketType::Pull, SocketType::Sub, SocketType::Router, SocketType::Dealer, SocketType::Rep] {
-    for rcvtimeo in [0, 1, 50, 500, -1] {
+    for rcvtimeo in [0, 1, 50, 333, 500, 5000, -1] {
       for multipart in [false, true] {
         for connected in [false, true] {
           rc.push(RCell { ty, rcvtimeo, multipart, connected, churn: false });
